@@ -664,6 +664,13 @@ pub fn generate(seed: u64, tier: Tier, p: &Profile) -> Scenario {
                 let ku = g.new_utxo(kaddr, kcoin, vec![], None, None);
                 plan.pre.push(Op::InScriptThenRegular { utxo: ku, wit: w2 });
             }
+            if pm(&mut g.r, p.corrections) {
+                // the redeemer is corrected: the same input is handed over again with another one
+                // (either order of entry points); the later witness is the one that counts
+                let mut first = wit.clone();
+                first.red = g.next_red();
+                plan.pre.push(Op::InScript { utxo: u, wit: first, by_utxo: g.r.chance(1, 2) });
+            }
             plan.pre.push(Op::InScript { utxo: u, wit, by_utxo: g.r.chance(1, 2) });
             plan.uses_plutus = true;
             plan.langs |= 1 << (lang - 1);
